@@ -64,7 +64,7 @@ class C04(Prop):
 
     def generate(self, rng, tier, shard, nshards):
         big = tier == 'thorough'
-        ntx = 960 if big else 32
+        ntx = 720 if big else 32
         per = max(1, ntx // nshards)
         shapes = [(1, 0), (1, 1), (2, 1), (2, 2), (3, 2), (2, 3), (4, 4), (4, 0), (3, 1), (1, 4), (4, 3), (3, 3)]
         txs = []
